@@ -1,5 +1,6 @@
 import PmtilesModel.Model.Build
 import PmtilesModel.Model.DirCodec
+import PmtilesModel.Model.F32Sched
 import Driver.Entries
 namespace Driver.C05
 open Pm Pm.Build Driver
@@ -13,6 +14,13 @@ def parseLeaves : Nat → List String → Option (List (Nat × List Entry) × Li
     let (ls, rest'') ← parseLeaves k rest'
     some ((l, es) :: ls, rest'')
   | _, _ => none
+
+/-- is `ls` the truncation of some member of the float32 schedule started at `x`? (`fuel` rounds) -/
+def onSchedule (ls : Nat) : Nat → F32.F32 → Bool
+  | 0, _ => false
+  | fuel+1, x =>
+    let t := F32.trunc x
+    if t = ls then true else if ls < t then false else onSchedule ls fuel (F32.mul12 x)
 
 def handle (ts : List String) : Option String :=
   match ts with
@@ -36,6 +44,17 @@ def handle (ts : List String) : Option String :=
         some (if certOK budget rootLen es root leaves then "ok" else "violates")
       | _ => none
     | _ => none
+  | ["f32mul", b] => do
+    -- bit-exact tie of the schedule arithmetic: IEEE bits of `x * 1.2` and `int(x)`
+    let b ← b.toNat?
+    let x := F32.ofBits b
+    if b / 8388608 < 139 ∨ 190 ≤ b / 8388608 then none
+    else some s!"{F32.bits (F32.mul12 x)} {F32.trunc x}"
+  | ["f32sched", n, ls] => do
+    let n ← n.toNat?
+    let ls ← ls.toNat?
+    if 14336000 ≤ n then some "unmodelled"
+    else some (if onSchedule ls 400 F32.f4096 then "on" else "off")
   | "finroot" :: _ => some "within"     -- theorem C05.opt_within_16k under obligation root_budgets_fit
   | "finrootx" :: _ => some "within"    -- the same for the root directory a whole-archive Extract writes
   | _ => none
